@@ -63,9 +63,7 @@ func runStat(c *engine.Chooser, name, cfg string, p rlwe.Parameters, pk, isNTT b
 	enc := rlwe.NewEncryptor(p, key)
 	enc2 := enc.ShallowCopy()
 
-	// the class on which TernarySampler.AtLevel panics (FINDINGS.md, covered by group "enc"): pool
-	// at the maximum level only, so that the statistics of this configuration are still judged
-	lowLevels := !(isTernary(p.Xe()) && !isNTT && (!pk || p.PCount() == 0))
+	lowLevels := true // (was false on the class where TernarySampler.AtLevel panicked; fixed in /repo 8ff3362)
 	reps := (poolMin + n - 1) / n
 	var pool rk.Pool
 	c1seen, eseen := map[string]bool{}, map[string]bool{}
